@@ -712,9 +712,13 @@ def check_fit_inside(col, idx, seed, temporal):
     val = gs.SRF(gen, seed=int(rng.integers(1 << 30)), mode_no=64)(pos)
     before = np.array(start.anis, copy=True)
     K = gs.krige.Ordinary if idx % 2 else gs.krige.Simple
-    with warnings.catch_warnings():
-        warnings.simplefilter("ignore")
-        k1 = K(start, cond_pos=pos, cond_val=val, fit_variogram=True)
+    try:
+        with warnings.catch_warnings():
+            warnings.simplefilter("ignore")
+            k1 = K(start, cond_pos=pos, cond_val=val, fit_variogram=True)
+    except (RuntimeError, ValueError) as e:   # the optimiser did not converge on this data set: inconclusive
+        col.notes.append("variogram fit failed on data set %d (%r): skipped" % (idx, e))
+        return
     fitted = k1.model
     k2 = K(copy.deepcopy(fitted), cond_pos=pos, cond_val=val)
     tgt = rng.uniform(0, 20, (d, 25))
